@@ -213,11 +213,40 @@ def _spec_of(obj):
     return {"tag": spec["tag"], "recurse": spec["recurse"], "fault": getattr(fn, "fault", "no"), "tol": spec["tol"]}
 
 
+def _free_names(fdef):
+    """names the function body loads that are neither its parameters nor assigned in it"""
+    local = {a.arg for a in fdef.args.args}
+    loads = set()
+    for n in ast.walk(fdef):
+        if isinstance(n, ast.Name):
+            (loads if isinstance(n.ctx, ast.Load) else local).add(n.id)
+    return sorted(loads - local)
+
+
+def _binding(fn, name):
+    """what a free name of the generated function resolves to"""
+    import builtins
+
+    import attr
+    from attr import _compat
+    g = fn.__globals__
+    if name not in g:
+        return "unpinned"
+    obj = g[name]
+    if name == "_compat":
+        return "attr._compat" if obj is _compat else "foreign:" + type(obj).__name__
+    if name == "NOTHING":
+        return "attr.NOTHING" if obj is attr.NOTHING else "foreign:" + type(obj).__name__
+    if hasattr(builtins, name) and obj is getattr(builtins, name):
+        return "builtin"
+    return "foreign:" + type(obj).__name__
+
+
 def parse_repr(cls):
     """-> Script JSON for the generated `__repr__` that instances of `cls` run"""
     fn = generated_repr(cls)
     if fn is None:
-        return {"body": [{"unknown": {"src": "no attrs-generated __repr__ in the MRO"}}], "globs": []}
+        return {"body": [{"unknown": {"src": "no attrs-generated __repr__ in the MRO"}}], "globs": [], "free": []}
     try:
         tree = ast.parse(textwrap.dedent(inspect.getsource(fn)))
         fdef = tree.body[0]
@@ -225,9 +254,15 @@ def parse_repr(cls):
               and [a.arg for a in fdef.args.args] == ["self"] and not fdef.args.vararg and not fdef.args.kwarg
               and not fdef.args.kwonlyargs and not fdef.args.defaults)
         body = _block(fdef.body) if ok else [_unknown(fdef)]
+        names = _free_names(fdef)
     except Exception as e:  # noqa: BLE001
         body = [{"unknown": {"src": f"source not available: {type(e).__name__}"}}]
+        names = []
     pre, suf = helper_affix()
+
+    def is_helper(g):
+        return g.startswith(pre) and g.endswith(suf) and len(g) > len(pre) + len(suf)
+    free = [[nm, _binding(fn, nm)] for nm in names if not is_helper(nm)]
     globs = [[g, _spec_of(o)] for g, o in fn.__globals__.items()
              if g.startswith(pre) and g.endswith(suf) and len(g) > len(pre) + len(suf) and g != "__repr__"]
-    return {"body": body, "globs": globs}
+    return {"body": body, "globs": globs, "free": free}
